@@ -27,6 +27,9 @@ use crate::{
 
 use super::nike::ElGamal;
 
+#[cfg(cosmian_cover_crypt_verif)]
+mod verif_hooks;
+
 fn xor_2<const LENGTH: usize>(lhs: &[u8; LENGTH], rhs: &[u8; LENGTH]) -> [u8; LENGTH] {
     let mut out = [0; LENGTH];
     for pos in 0..LENGTH {
